@@ -1,7 +1,7 @@
 (* C19 -- the statements of Props/Properties_C19.v with their (short) derivations from the lemmas of PRProofs.v, Mix.v,
    Checker.v; Props/ only contains `exact`. *)
 From Coq Require Import Reals QArith Qreals List String Lra.
-From IPV Require Import Base.RExpr Base.IntervalEval C19.BExpr C19.Spec C19.PRProofs C19.Mix C19.Checker Gen.Gen_C19_gases.
+From IPV Require Import Base.RExpr Base.IntervalEval C19.BExpr C19.Spec C19.PRProofs C19.Cardano C19.Mix C19.Checker Gen.Gen_C19_gases.
 Import ListNotations.
 Local Open Scope R_scope.
 
@@ -212,4 +212,24 @@ Lemma T_check_gas_sound :
   (forall Rg T P m cs, check_three_roots Rg T P m cs = true -> 0 < disc_R Rg T P m cs).
 Proof.
   exact ((conj check_eos_any_sound (conj check_ideal_any_sound (conj check_phi_sound (conj check_phi_at_sound (conj check_clamped_sound (conj check_partial_sound (conj check_partial_floor_sound (conj check_psum_sound (conj check_fug_sound (conj check_fug_floor_sound (conj check_reaches_sound (conj check_below_sound check_three_roots_sound))))))))))))).
+Qed.
+
+Lemma T_cardano_and_trigonometric_roots_partial :
+  forall (cr : R -> R) (one3 : R), (forall x, cr x * cr x * cr x = x) -> (forall x, 0 < x -> Rpower x one3 = cr x) ->
+  (forall rp rq r1, let rz := evalR (env_of [rp; rq]) p_rzc in
+     0 <= rz -> 0 < sqrt rz - rq / 2 -> 0 < - sqrt rz - rq / 2 ->
+     let V := evalR (env_of [sqrt rz; rq; r1; one3]) p_Vm_card1 in let t := V + r1 / 3 in t * t * t + rp * t + rq = 0) /\
+  (forall rp rq r1, let rz := evalR (env_of [rp; rq]) g_rzc in
+     0 <= rz -> 0 < sqrt rz - rq / 2 -> 0 < - sqrt rz - rq / 2 ->
+     let V := evalR (env_of [sqrt rz; rq; r1; one3]) g_Vm_card1 in let t := V + r1 / 3 in t * t * t + rp * t + rq = 0) /\
+  (forall rp rq r1 th, rp < 0 -> let ri := evalR (env_of [rp]) p_ri_trig in
+     cos th = evalR (env_of [rq; ri]) p_acos_arg ->
+     let V := evalR (env_of [ri; one3; th; r1]) p_Vm_trig in let t := V + r1 / 3 in t * t * t + rp * t + rq = 0) /\
+  (forall rp rq r1 th, rp < 0 -> let ri := evalR (env_of [rp]) g_ri_trig in
+     cos th = evalR (env_of [rq; ri]) g_acos_arg ->
+     let V := evalR (env_of [ri; one3; th; r1]) g_Vm_trig in let t := V + r1 / 3 in t * t * t + rp * t + rq = 0).
+Proof.
+  intros cr one3 H1 H2.
+  exact (conj (proj1 (p_g_cardano1 cr one3 H1 H2)) (conj (proj2 (p_g_cardano1 cr one3 H1 H2))
+        (conj (proj1 (p_g_trig cr one3 H1 H2)) (proj2 (p_g_trig cr one3 H1 H2))))).
 Qed.
